@@ -1,6 +1,6 @@
 """C15 -- hyperedge replacement is typed, fresh and order-independent
 (fggs.replace_edge, fggs.start_graph, FGGDerivation.derive)."""
-import itertools, random, math, gc, copy as _copy
+import itertools, random, math, copy as _copy
 from harness.core import *
 from harness import gen
 
@@ -436,7 +436,6 @@ def run_derive_plain(b, spec, t):
         if not isinstance(edge.id, str): dead.add(edge.id)
         return orig(graph, edge, replacement)
     d = to_fgg_deriv(b.fgg, spec, t)
-    gc.collect()
     D.replace_edge = spy
     try:
         g, asst = d.derive()
@@ -671,12 +670,24 @@ ALIAS_MSG = {1: "replace_edge(g, e, g) -- the host graph passed as its own repla
              10: "replace_edge(g, e, g) differs from replace_edge_alias_model (if /repo was repaired: update the model and mark the finding fixed)"}
 
 def run(tier, seed):
+    # the harness keeps every wire value and every fggs object alive until the verdicts are in (a few
+    # million acyclic tuples): generational collections of that heap cost more than everything else, and
+    # there is nothing cyclic to reclaim but derive()'s own closure frames
+    import gc
+    was = gc.isenabled()
+    gc.disable()
+    try:
+        return _run(tier, seed)
+    finally:
+        if was: gc.enable()
+
+def _run(tier, seed):
     rng = random.Random(seed)
     import time as _time
     t_start = _time.time()
     violations, notes = [], 0
-    n_trees = 115 if tier == "quick" else 3000
-    n_forced = 10 if tier == "quick" else 150
+    n_trees = 115 if tier == "quick" else 2000
+    n_forced = 10 if tier == "quick" else 100
     if os.environ.get("C15_TREES"): n_trees = int(os.environ["C15_TREES"])      # mutation self-tests only
     max_lin = 120
     repl_cases, lin_cases, der_cases = [], [], []
@@ -804,7 +815,7 @@ def run(tier, seed):
             samples.append(dict(meta, n_linearisations=nl, first_order=[list(map(str, p)) for p in lins[-1]]))
     t_trees = _time.time()
     # malformed / single-call stream
-    mal = malformed_cases(rng, 150 if tier == "quick" else 2400)
+    mal = malformed_cases(rng, 150 if tier == "quick" else 2000)
     mal_hist = {}
     mal_obs = {}
     look_cases = look_hits = 0
@@ -822,7 +833,7 @@ def run(tier, seed):
         key = kind + ":" + STATUS_NAME[status]
         mal_obs[key] = mal_obs.get(key, 0) + 1
     # replace_edge(g, e, g)
-    al = alias_cases(rng, 50 if tier == "quick" else 600)
+    al = alias_cases(rng, 50 if tier == "quick" else 400)
     alias_wire, alias_meta, alias_obs = [], [], {}
     for shape, ctx, host, edge, desc in al:
         try:
